@@ -151,8 +151,34 @@ def _tn():
     return t
 
 
+def _tl():
+    """T0 with *long* texts: every prose, the summary and the composite types are longer than the default line length, so
+    word wrap is at work in every entry (C18: "shorter than, equal to and much longer than the width")."""
+    t = _t0()
+    t["id"] = "TL"
+    t["prose"] = {
+        "p1": "name of the dataset that is going to be downloaded from the official model zoo of the project and then cached locally for every later run",
+        "p2": "directory in which the downloaded archives and the extracted models are looked for before anything is fetched over the network again",
+        "p3": "number of samples that make up one batch when the training loop iterates over the shuffled and repeated input pipeline of the task",
+        "p4": "whether the tensors that come out of the input pipeline are converted to plain numpy ndarrays before they are handed to the caller",
+        "kw": "every additional keyword argument is passed on unchanged to the data loader function that was selected by the name of the dataset",
+        "ret": "the pair of training and testing splits of the dataset in the order in which the underlying loader function produced the two of them",
+    }
+    t["lit"] = ("adam", "sgd", "rmsprop", "adagrad", "adadelta", "adamax", "nadam", "ftrl", "lion", "lamb", "lars", "yogi")
+    t["typ"]["LitStr"] = "Literal[%s]" % ", ".join(repr(x) for x in t["lit"])
+    t["def"] = dict(t["def"], str="adam")
+    t["typ"]["UnionIntStr"] = "Union[int, float, complex, bytes, bytearray, memoryview, bool, frozenset, range, slice, type, str]"
+    t["typ"]["Dotted"] = "tensorflow.python.keras.engine.training_utils_v1.ModelInputsAndOutputsWithAVeryLongDescriptiveClassName"
+    t["code"] = dict(t["code"], Dotted="tensorflow.python.keras.engine.training_utils_v1.ModelInputsAndOutputsWithAVeryLongDescriptiveClassName()",
+                     ret_Dotted="tensorflow.python.keras.engine.training_utils_v1.ModelInputsAndOutputsWithAVeryLongDescriptiveClassName()")
+    t["summary"] = {"one": "Acquire the requested dataset from the official tensorflow_datasets model zoo or from the ophthalmology focussed ml prepare library",
+                    "multi": "Acquire the requested dataset from the official tensorflow_datasets model zoo or from the ophthalmology focussed library,\n"
+                             "whichever of the two knows the name, and hand back the training and the testing split together with their sizes"}
+    return t
+
+
 def tables(n_random=0, seed=0):
-    ts = [_t0(), _t1(), _tn()]
+    ts = [_t0(), _t1(), _tn(), _tl()]
     for i in range(n_random):
         ts.append(random_table(seed * 1000 + i + 1))
     return ts
